@@ -2,7 +2,7 @@
 import random
 
 STATES = {"str": ["q0", "q1", "q2", "q3"], "int": [0, 1, 2, 3], "short": ["q", "q0", "q1", "q00"],
-          "graph": ["q0", "x y", "starting_0", 7]}
+          "graph": ["q0", "x y", "starting_0", 7], "mixed": [1, "1", 2, "2"]}
 INS = ["a", "b"]
 OUTS = ["x", "y", "xy", 1, "1"]      # ["x","y"] vs ["xy"], [1] vs ["1"]: equal when concatenated as text
 
@@ -19,9 +19,11 @@ def random_case(rng, max_states=3, max_trans=6, vcs=None, allow_eps_out=False):
     starts = sorted(set(rng.randrange(n) for _ in range(rng.choice([1, 1, 2]))))
     finals = [s for s in range(n) if rng.random() < 0.5]
     c = {"n": n, "trans": trans, "starts": starts, "finals": finals,
-         "vc": rng.choice(vcs or ["str", "int", "short", "inject"])}
+         "vc": rng.choice(vcs or ["str", "int", "short", "inject", "mixed"])}
     if c["vc"] == "inject":
         c["perm"] = rng.sample(range(4), 4)
+        if rng.random() < 0.2:
+            c["perm"] = [rng.randrange(2) for _ in range(4)]        # different keys, equal hashes
     if rng.random() < 0.5:
         c["shuffle"] = rng.randrange(1 << 30)
     if rng.random() < 0.15:
